@@ -164,7 +164,39 @@ func RunNames(c *core.Ctx) {
 		})
 		return true
 	})
+	// every early return before the renaming/recursion must be one of the two accepted skips:
+	// already processed (map lookup on the processed set) or a map-entry message
+	var badRet []string
+	for _, st := range rw.Body.List {
+		is, ok := st.(*ast.IfStmt)
+		if !ok {
+			continue
+		}
+		hasRet := false
+		ast.Inspect(is.Body, func(x ast.Node) bool {
+			if _, ok := x.(*ast.ReturnStmt); ok {
+				hasRet = true
+			}
+			return true
+		})
+		if !hasRet {
+			continue
+		}
+		cs := types.ExprString(is.Cond)
+		okCond := cs == "done" || strings.HasSuffix(cs, ".Desc.IsMapEntry()")
+		if is.Init != nil {
+			if as, ok := is.Init.(*ast.AssignStmt); ok && len(as.Rhs) == 1 {
+				if _, isIdx := as.Rhs[0].(*ast.IndexExpr); isIdx && len(as.Lhs) == 2 && types.ExprString(as.Lhs[1]) == cs {
+					okCond = true
+				}
+			}
+		}
+		if !okCond {
+			badRet = append(badRet, cs)
+		}
+	}
 	pos := c.PosStr(p.Fset, rw.Pos())
+	c.Check(len(badRet) == 0, "T.names", "rewriteMessageField early returns", "messages are skipped only when already processed or map entries", fmt.Sprintf("rewriteMessageField returns early under %v: fields, oneofs and nested messages of such messages are not renamed", badRet), pos, src)
 	c.Check(renamed["Fields"], "T.names", "rewriteMessageField renames Fields", "field Go names colliding with reserved names are suffixed", "fields are not passed through the reserved-name rename", pos, src)
 	c.Check(renamed["Oneofs"], "T.names", "rewriteMessageField renames Oneofs", "oneof Go names colliding with reserved names are suffixed", "oneofs (which become struct fields of the message) are not passed through the reserved-name rename", pos, src)
 	c.Check(recursed, "T.names", "rewriteMessageField recurses into nested messages", "nested messages are processed", "nested messages are not processed", pos, src)
@@ -259,7 +291,7 @@ var bannedCalls = map[string]string{
 	"os.UserHomeDir": "path", "os.UserCacheDir": "path", "os.UserConfigDir": "path", "os.Executable": "path", "os.TempDir": "path",
 	"os.ReadFile": "file system", "os.Open": "file system", "os.ReadDir": "file system", "os.Stat": "file system", "os.OpenFile": "file system",
 	"path/filepath.Abs": "path", "runtime.Version": "toolchain", "runtime.Caller": "path", "runtime.Callers": "path", "runtime/debug.ReadBuildInfo": "build info",
-	"os/user.Current": "user",
+	"os/user.Current": "user", "os.Args": "command line / binary name", "os.Stdin": "side input", "flag.CommandLine": "command line",
 }
 var bannedPkgs = map[string]string{"math/rand": "random", "math/rand/v2": "random", "crypto/rand": "random", "net": "network", "net/http": "network", "os/exec": "process"}
 
